@@ -212,6 +212,9 @@ def _same(a, b):
     return a == b
 
 
+NESTINGS = ('flat', 'nested-head', 'nested-tail', 'flat-repeat', 'nested-repeat', 'self-repeat')
+
+
 class _AllAccept(And):
     """Every combined function accepts the call (z3); really evaluated by calling the Combination itself."""
     def __init__(self, shapes, comb):
@@ -241,12 +244,28 @@ def h_combination(ctx, cfg):
     avals = [sym.sym_val('av') for _ in range(n)]
     kvals = dict((nm, sym.sym_val('kv')) for nm in kws)
     with sym.notrace():
-        ctx.case('Combination %s call n=%d kw={%s}' % (render_specs(specs), n, ','.join(kws)), nontrivial=False)
         shapes = [s.shape() for s in specs]
         cons = role_consistent(shapes)
         fns = [U.make_function(s.deflist(), body='    return ("f%d", %s)' % (j, s.names[0] if s.names and s.kinds[0] < 2 else '0'),
                                name='f%d' % j) for j, s in enumerate(specs)]
-    comb = wrappers.Combination(*fns)
+    forms = cfg.get('nesting', NESTINGS)
+    form = forms[sym.pick(len(forms), 'nesting')] if len(forms) > 1 else forms[0]
+    ctx.count('prod:nesting:' + form)
+    with sym.notrace():
+        ctx.case('Combination[%s] %s call n=%d kw={%s}' % (form, render_specs(specs), n, ','.join(kws)), nontrivial=False)
+    C = wrappers.Combination
+    if form == 'flat':
+        comb = C(*fns)
+    elif form == 'nested-head':
+        comb = C(C(fns[0]), *fns[1:])
+    elif form == 'nested-tail':
+        comb = C(fns[0], C(*fns[1:])) if len(fns) > 1 else C(C(fns[0]))
+    elif form == 'flat-repeat':
+        comb = C(fns[0], *fns); fns = [fns[0]] + fns; shapes = [shapes[0]] + shapes
+    elif form == 'nested-repeat':       # a nested combination repeating a function the outer one already holds
+        comb = C(fns[0], C(*fns)); fns = [fns[0]] + fns; shapes = [shapes[0]] + shapes
+    else:                               # 'self-repeat': the nested combination holds the same function twice
+        comb = C(C(fns[0], fns[0]), *fns[1:]); fns = [fns[0]] + fns; shapes = [shapes[0]] + shapes
 
     def run(f):
         try:
@@ -298,11 +317,11 @@ def plan(tier):
                  cfg=dict(K=1, D=2, min_depth=2, placements=['method'], own_forms=['none', 'kwo-default']),
                  bounds='methods with <=1 named parameter under stacks of exactly 2 layers (2 kinds x own parameter none / keyword-only with default) x returning/raising body x calls; symbolic values',
                  min_nontrivial=300, must_reach=['same-result-as-composition']),
-            dict(name='combination-signature-total2', fn='h_combination', depth=9, budget_s=300, cfg=dict(K=1, total=2, calls=False),
-                 bounds='Combination of 1..3 functions with <=1 named parameter each, <=2 in total; signature soundness for sigtools.signature and inspect.signature',
+            dict(name='combination-signature-total2', fn='h_combination', depth=9, budget_s=300, cfg=dict(K=1, total=2, calls=False, nesting=['flat', 'nested-tail']),
+                 bounds='Combination of 1..3 functions (flat or with a nested Combination) with <=1 named parameter each, <=2 in total; signature soundness for sigtools.signature and inspect.signature',
                  min_nontrivial=300, must_reach=['combination-signature-sound']),
             dict(name='combination-calls-total1', fn='h_combination', depth=9, budget_s=300, cfg=dict(K=1, total=1, count=2),
-                 bounds='Combination of 1..2 functions with <=1 named parameter in total x calls n<=len+1, every keyword subset incl. foreign; symbolic values',
+                 bounds='Combination of 1..2 functions with <=1 named parameter in total x 6 nesting forms (flat, nested head / tail, a function repeated flat / across / inside a nested Combination) x calls n<=len+1, every keyword subset incl. foreign; symbolic values',
                  min_nontrivial=300, must_reach=['combination-same-result']),
         ]
     return [
